@@ -699,8 +699,8 @@ def correspondence(ctx):
     n_der = len(cs.exprs)
     corr_keys(ctx, cs)
     ctx.extra["correspondence_impl_s"] = round(time.time() - t0, 1)
-    if ctx.quick() and not ctx.brokens:
-        # the model is evaluated by coqc (about 50 ms per key-level case): keep at most CAP cases of
+    if not ctx.brokens:
+        # the model is evaluated by coqc (10-30 ms per key-level case): keep at most CAP cases of
         # every category (category = operation / kind of input), chosen by the seeded PRNG
         by_cat = {}
         for i, d in enumerate(cs.descr):
@@ -708,7 +708,7 @@ def correspondence(ctx):
         keep = []
         for cat in sorted(by_cat):
             idx = by_cat[cat]
-            cap = ctx.budget(40, 40) if idx[0] >= n_der else ctx.budget(60, 60)
+            cap = ctx.budget(40, 500) if idx[0] >= n_der else ctx.budget(60, 800)
             keep += idx if len(idx) <= cap else ctx.rng.sample(idx, cap)
         keep.sort()
         cs.exprs = [cs.exprs[i] for i in keep]
@@ -898,7 +898,7 @@ class Searcher:
         self.per_kind = {}
         self.counts = {}
         scale = 3 if ctx.brokens else 1
-        self.t_end = time.time() + ctx.budget(40, 480) * scale
+        self.t_end = time.time() + ctx.budget(40, 420) * scale
 
     def time_left(self):
         return self.t_end - time.time()
@@ -933,7 +933,34 @@ class Searcher:
             self.fail("%s-accepted:%s" % (how.split(" ")[0], decoder), info, "returned %r" % (res,))
         elif expect == "same" and not (res == same):
             self.fail("roundtrip-differs:%s" % decoder, info, "decoded key differs from the encoded one")
+        elif expect == "any":
+            why = self.invalid_key(res)
+            if why:
+                self.fail("invalid-key-accepted:%s" % decoder, info, why)
         return res
+
+    def invalid_key(self, res):
+        """a decoder that returns a key must return a valid one: public point in range and on its curve,
+        secret exponent in 1..n-1 (checked here with plain integer arithmetic)"""
+        K = self.I.keys
+        vk = res if isinstance(res, K.VerifyingKey) else getattr(res, "verifying_key", None)
+        if isinstance(res, self.I.plugin.PublicEccKeyProxy):
+            vk = res.public_key
+        if not isinstance(vk, K.VerifyingKey) or vk.curve.name in ED_NAMES:
+            return None
+        cv = vk.curve.curve
+        p, a, b = int(cv.p()), int(cv.a()), int(cv.b())
+        x, y = int(vk.pubkey.point.x()), int(vk.pubkey.point.y())
+        if isinstance(res, K.SigningKey):
+            k = int(res.privkey.secret_multiplier)
+            if not 1 <= k < int(res.curve.order):
+                return "secret exponent %d is not in 1..n-1" % k
+            return None      # SigningKey.from_der does not validate the embedded public key (it recomputes it)
+        if not (0 <= x < p and 0 <= y < p):
+            return "public point coordinate out of range"
+        if (y * y - (x * x * x + a * x + b)) % p != 0:
+            return "public point (%d, %d) is not on the curve" % (x, y)
+        return None
 
     # -- keys ------------------------------------------------------------------------------
 
@@ -1044,6 +1071,9 @@ def all_point_encodings_check(S, c, vk):
     l = flen(int(c.curve.p()))
     lens = {2 * l, 2 * l + 1, l + 1}
     f = lambda b: K.VerifyingKey.from_string(b, c)    # noqa
+    hyb = vk.to_string("hybrid")
+    S.probe("VerifyingKey.from_string", f, bytes([hyb[0] ^ 1]) + hyb[1:], "reject",
+            "inconsistent-hybrid (tag %02x with the other parity of y)" % (hyb[0] ^ 1), c.name)
     for pe in ("raw", "uncompressed", "compressed", "hybrid"):
         s = vk.to_string(pe)
         S.probe("VerifyingKey.from_string", f, s, "same", "roundtrip point/%s (all encodings enabled)" % pe, c.name, same=vk)
@@ -1106,14 +1136,55 @@ def search(ctx):
     # 0. regression inputs (IndexError / truncated bodies accepted before the fix of the removers)
     for dec, hx, note in REGRESSIONS:
         S.probe(dec, DEC[dec], bytes.fromhex(hx), "reject", "regression %s" % note)
-    # 0b. primitives on short malformed strings
-    for name in ("der.remove_sequence", "der.remove_integer", "der.remove_object", "der.remove_octet_string",
-                 "der.remove_constructed", "der.remove_bitstring[0]", "der.read_length", "der.read_number"):
+    # 0b. primitives on short malformed strings and on damaged encodings: a documented error, or a value
+    #     whose canonical encoding is exactly the consumed input (the DER minimality checks are complete)
+    d = I.der
+    reenc = {
+        "der.remove_sequence": lambda v: d.encode_sequence(v[0]) + v[1],
+        "der.remove_integer": lambda v: d.encode_integer(v[0]) + v[1],
+        "der.remove_object": lambda v: d.encode_oid(*v[0]) + v[1],
+        "der.remove_octet_string": lambda v: d.encode_octet_string(v[0]) + v[1],
+        "der.remove_constructed": lambda v: d.encode_constructed(v[0], v[1]) + v[2],
+        "der.remove_bitstring[0]": lambda v: d.encode_bitstring(v[0], 0) + v[1],
+        "der.read_length": None, "der.read_number": None,
+    }
+    valid = {
+        "der.remove_sequence": lambda: d.encode_sequence(rbytes(r, r.choice([0, 1, 5, 127, 128, 130, 300]))),
+        "der.remove_integer": lambda: d.encode_integer(r.getrandbits(r.choice([1, 7, 8, 15, 16, 64, 1016, 1024]))),
+        "der.remove_object": lambda: d.encode_oid(r.choice([0, 1, 2]), r.randrange(40), *[r.getrandbits(r.choice([3, 7, 8, 14, 40])) for _ in range(r.randrange(5))]),
+        "der.remove_octet_string": lambda: d.encode_octet_string(rbytes(r, r.choice([0, 1, 5, 127, 128, 130, 300]))),
+        "der.remove_constructed": lambda: d.encode_constructed(r.randrange(32), rbytes(r, r.choice([0, 1, 127, 128, 256]))),
+        "der.remove_bitstring[0]": lambda: d.encode_bitstring(rbytes(r, r.choice([0, 1, 65, 127, 128])), 0),
+        "der.read_length": lambda: d.encode_length(r.getrandbits(r.choice([3, 7, 8, 9, 16, 17, 32]))) + rbytes(r, 2),
+        "der.read_number": lambda: d.encode_number(r.getrandbits(r.choice([3, 7, 8, 14, 15, 40]))) + rbytes(r, 2),
+    }
+    for name in sorted(reenc):
         tag = {"der.remove_sequence": 0x30, "der.remove_integer": 2, "der.remove_object": 6, "der.remove_octet_string": 4,
                "der.remove_constructed": 0xA0, "der.remove_bitstring[0]": 3}.get(name)
+        cands = []
         for s in [b"", b"\x80", b"\x81", b"\x81\x7f", b"\x82\x00\x80", b"\xff"] + [rbytes(r, n) for n in (1, 2, 3, 4) for _ in range(8)]:
-            for cand in ([s] if tag is None else [s, bytes([tag]) + s]):
-                S.probe(name, DEC[name], cand, "any", "short-string %s" % cand.hex())
+            cands += [s] if tag is None else [s, bytes([tag]) + s]
+        for _ in range(ctx.budget(12, 120)):
+            v = valid[name]()
+            cands.append(v)
+            cands += [v[:k] for k in sorted(set(r.randrange(len(v)) for _ in range(3)))]
+            cands += [m + v[6:] for _, _, m in mutations(v[:6], r)]
+        for cand in cands:
+            res = S.probe(name, DEC[name], cand, "any", "short-string %s" % cand[:24].hex())
+            if res is None:
+                continue
+            try:
+                if name == "der.read_length":
+                    back = d.encode_length(res[0]) + cand[res[1]:]
+                elif name == "der.read_number":
+                    back = d.encode_number(res[0]) + cand[res[1]:]
+                else:
+                    back = reenc[name](res)
+            except Exception as e:   # noqa
+                back = repr(e).encode()
+            if back != cand:
+                S.fail("non-canonical-accepted:%s" % name, {"decoder": name, "input": cand, "decoded": repr(res)[:200], "canonical": back},
+                       "%s accepts an input that is not the canonical DER encoding of what it returns" % name)
     # 1. all 17 curves: round trips, bytes, truncations, extensions
     plan = []
     for c in I.W:
@@ -1154,7 +1225,7 @@ def search(ctx):
                 S.probe(dec, f, m, "any", "structure %s of %s" % (how, label), c.name)
     # 4. every single-byte mutation (xor 01, xor 80, set 00, set FF): named encodings first, then
     #    explicit parameters and PEM, until the time budget is used up
-    ctx.extra["search_fixed_part_s"] = round(time.time() - (S.t_end - ctx.budget(40, 480) * (3 if ctx.brokens else 1)), 1)
+    ctx.extra["search_fixed_part_s"] = round(time.time() - (S.t_end - ctx.budget(40, 420) * (3 if ctx.brokens else 1)), 1)
     order = sorted(range(len(plan)), key=lambda i: (plan[i][2].endswith("/explicit") or plan[i][2].startswith("pem"),
                                                     plan[i][0].name not in HEAVY, r.random()))
     done = 0
@@ -1175,7 +1246,7 @@ def search(ctx):
         "beyond, integers with the high bit set / leading zeros, OIDs with large arcs, bit strings in all three calling "
         "conventions) plus truncations, extensions, flipped tag/length bytes and empty input; util number/string codecs; "
         "point, curve-parameter, public and private key codecs on all 17 curves with the modular square root and the scalar "
-        "multiplication recorded from the implementation's own run as oracle tables; quick tier keeps <= 40/60 cases per "
+        "multiplication recorded from the implementation's own run as oracle tables; quick tier keeps <= 40/60 (thorough 500/800) cases per "
         "category. search (implementation only): per curve a random key, keys with leading-zero scalar bytes and a key with a "
         "leading-zero coordinate: bytes of every encoding against an independent DER/SEC1 encoder, round trip through "
         "raw/uncompressed/compressed/hybrid, SPKI / SEC1 / PKCS#8 x named/explicit, PEM; every truncation and 5 extensions "
